@@ -108,7 +108,7 @@ pub mod tempfile {
                         &&& final(w).hard_faults == old(w).hard_faults
                         &&& t.offset() == 0
                         &&& t.pathv().len() > 0 && parent(t.pathv()) == cowv(dir) && single_component(base_name(t.pathv()))
-                        &&& !old(w).files.contains_key(t.pathv()) && !old(w).inodes.contains_key(t.ino())
+                        &&& !old(w).files.contains_key(t.pathv()) && !old(w).dirs.contains(t.pathv()) && !old(w).inodes.contains_key(t.ino())
                         &&& final(w).files == old(w).files.insert(t.pathv(), t.ino())
                         &&& final(w).inodes == old(w).inodes.insert(
                             t.ino(),
@@ -172,7 +172,6 @@ pub mod tempfile {
 
     /// What creating an anonymous temporary file does: a fresh, empty, writable inode that no name binds.
     pub open spec fn anon_created(old: World, fin: World, r: std::io::Result<std::fs::File>) -> bool {
-        &&& fin.inv()
         &&& fin.kept(old) && fin.steps == old.steps + 1 && fin.opens == old.opens + 1
         &&& fin.now == old.now && fin.listed == old.listed && fin.published == old.published && fin.supplied == old.supplied && fin.owned == old.owned
         &&& fin.app_errors == old.app_errors && fin.app_not_found == old.app_not_found
@@ -218,6 +217,7 @@ pub mod tempfile {
             old(w).inv(),
             old(w).is_temp_dir(cowv(dir)) && !old(w).under_ro(cowv(dir)),   // @L C02 C15 C16:temporary-files-live-in-kismet-temp
         ensures
+            final(w).inv(),
             anon_created(*old(w), *final(w), r),
     {
         unimplemented!()
@@ -229,6 +229,7 @@ pub mod tempfile {
         requires
             old(w).inv(),
         ensures
+            final(w).inv(),
             anon_created(*old(w), *final(w), r),
     {
         unimplemented!()
@@ -266,7 +267,7 @@ pub fn call_populate<P: FnOnce(&mut std::fs::File, Option<std::fs::File>) -> ::s
         forall|i: InodeId| i != old(dst).ino() && old(w).inodes.contains_key(i) ==> #[trigger] final(w).inodes[i] == (Inode { atime: final(w).inodes[i].atime, ..old(w).inodes[i] }),
         final(w).inodes[old(dst).ino()] == (Inode {
             content: final(w).inodes[old(dst).ino()].content,
-            mtime: final(w).inodes[old(dst).ino()].mtime,
+            mtime: trunc(final(w).now, old(w).gran),
             atime: final(w).inodes[old(dst).ino()].atime,
             synced: false,
             ..old(w).inodes[old(dst).ino()]
